@@ -44,13 +44,22 @@ def seed_rows(seed):
     return {"t": t, "u": u, "k": k, "n": list(N_ROWS), "s": sr}
 
 
+_TEMPLATES = {}
+
+
 def fresh_db(seed):
+    """a private copy of the seeded database (built once per seed, then copied with the backup API)"""
+    tpl = _TEMPLATES.get(seed)
+    if tpl is None:
+        tpl = sqlite3.connect(":memory:")
+        rows = seed_rows(seed)
+        for name, (ddl, cols) in TABLES.items():
+            tpl.execute(ddl)
+            tpl.executemany('INSERT INTO "%s" VALUES (%s)' % (name, ",".join("?" * len(cols))), rows[name])
+        tpl.commit()
+        _TEMPLATES[seed] = tpl
     c = sqlite3.connect(":memory:")
-    rows = seed_rows(seed)
-    for name, (ddl, cols) in TABLES.items():
-        c.execute(ddl)
-        c.executemany('INSERT INTO "%s" VALUES (%s)' % (name, ",".join("?" * len(cols))), rows[name])
-    c.commit()
+    tpl.backup(c)
     return c
 
 
